@@ -115,6 +115,8 @@ func genSplit(g *genCtx) {
 					totals = append(totals, k*p.per+d)
 				}
 			}
+			// beyond one 4096-octet transform buffer of the codecs
+			totals = append(totals, 4096, 4097, 5003)
 			if g.thorough() {
 				// around the 255-part limit (texts of ~34,000 units: a few, they are expensive to judge)
 				for _, k := range []int{255, 256} {
